@@ -309,6 +309,21 @@ def scenario(seed: int, features: Optional[Dict[str, Any]] = None, families=None
     sb = (r.random() < 0.35) if small_budgets is None else small_budgets
     cfg = make_config(seed, small_budgets=sb)
     kw: Dict[str, Any] = dict(x0=p.x0.copy(), fun=p.fun, jac=p.grad, bounds=p.bounds, **cfg)
+    xdt = feat.get("x0_dtype")
+    if xdt in ("float32", "float16"):
+        # a start given in reduced precision (moved inside the box where the rounding put it outside: the package refuses a start
+        # outside the box); the problem's start is the value of that array in double precision
+        dt = np.float32 if xdt == "float32" else np.float16
+        xl = p.x0.astype(dt)
+        for i in range(xl.size):
+            for _ in range(4):
+                if float(xl[i]) < p.lb[i]:
+                    xl[i] = np.nextafter(xl[i], dt(np.inf))
+                elif float(xl[i]) > p.ub[i]:
+                    xl[i] = np.nextafter(xl[i], dt(-np.inf))
+        if bool((xl.astype(float) >= p.lb).all() and (xl.astype(float) <= p.ub).all()) and bool(np.isfinite(xl.astype(float)).all()):
+            p.x0 = xl.astype(float)
+            kw["x0"] = xl
     mode = feat.get("jac", "callable")
     if mode != "callable":
         kw["jac"] = None if mode == "none" else mode
